@@ -1070,8 +1070,6 @@ private:
                 return;
             }
             rate_identity = hashed_token_identity(token_it->second);
-        } else if (token_it != request.fields.end()) {
-            rate_identity = hashed_token_identity(token_it->second);
         }
 
         if (!request.payload_header_present) {
@@ -1265,8 +1263,6 @@ private:
                 respond_error(std::move(error), "auth_invalid", true, false);
                 return;
             }
-            rate_identity = hashed_token_identity(token_it->second);
-        } else if (token_it != fields.end()) {
             rate_identity = hashed_token_identity(token_it->second);
         }
 
